@@ -393,10 +393,13 @@ def lossless(ctx, rep):
     from bingo.evolutionary_optimizers.serial_archipelago import SerialArchipelago
     from harness.bingo_util import simple_island
     rng = ctx.rng
-    for t in range(ctx.n(10, 40)):
+    for t in range(ctx.n(12, 48)):
         np.random.seed(rng.randrange(2 ** 31))
         random.seed(rng.randrange(2 ** 31))
-        kind = ["island", "agraph", "arch", "predictor island", "agraph seeded, never evaluated"][t % 5]
+        # predictor islands twice per cycle, dumped after several hall-of-fame updates and continued for a dozen generations:
+        # state that survives the round trip only by object identity shows first in the point-evaluation counter, later in the
+        # populations (seed C13-I)
+        kind = ["island", "agraph", "predictor island", "arch", "predictor island", "agraph seeded, never evaluated"][t % 6]
         with warnings.catch_warnings():
             warnings.simplefilter("ignore")
             if kind == "island":
@@ -418,7 +421,10 @@ def lossless(ctx, rep):
             else:
                 tmpl, _ = simple_island(6)
                 opt = SerialArchipelago(tmpl, num_islands=3)
-            if kind != "agraph seeded, never evaluated":
+            if kind == "predictor island":
+                for _ in range(rng.randrange(3, 7)):       # one evolve call per generation: a hall-of-fame update after each
+                    opt.evolve(1)
+            elif kind != "agraph seeded, never evaluated":
                 opt.evolve(rng.randrange(1, 4))
             d = tempfile.mkdtemp(prefix="c13l_")
             try:
@@ -434,12 +440,15 @@ def lossless(ctx, rep):
                 rep.violate(f"{kind}: loaded optimizer differs from the dumped one", "C13:lossy", case)
                 continue
             st_np, st_py = np.random.get_state(), random.getstate()
-            more = 8 if kind == "predictor island" else 3
-            opt.evolve(more)
+            more = 12 if kind == "predictor island" else 3
+            steps = [1] * more if kind == "predictor island" else [more]
+            for n_ in steps:
+                opt.evolve(n_)
             a = projection(opt)
             np.random.set_state(st_np)
             random.setstate(st_py)
-            loaded.evolve(more)
+            for n_ in steps:
+                loaded.evolve(n_)
             b = projection(loaded)
             if a != b:
                 rep.violate(f"{kind}: continued evolution of the loaded optimizer diverges from the original under the same RNG state",
